@@ -238,5 +238,52 @@ pub fn run(out: &mut Out, thorough: bool, seed: u64) {
             }
         }
     }
-    out.note("domain", "80 correctness x 12 malleability values; unary/binary/ternary rule tables complete; thresholds: exhaustive n<=2 (corr) / n=3 (mall) + random n<=200".into());
+    typeof_stream(out, thorough, &mut rng);
+    out.note("domain", "type_check dispatch: every one-step composition (7 wrappers, 6 binary combinators, andor, thresh) of accepted fragments in 4 contexts, accepted AND rejected, compared with the model's typeOf; 80 correctness x 12 malleability values; unary/binary/ternary rule tables complete; thresholds: exhaustive n<=2 (corr) / n=3 (mall) + random n<=200".into());
+}
+
+
+/// `Type::type_check` as dispatched by `Miniscript::from_ast` on real fragments: every one-step
+/// composition of already accepted fragments - whether the library accepts it or rejects it
+/// with a type error - is compared with the model's `typeOf` (`C typeof`; "ERR" = type error).
+/// Context errors (key kinds, multi flavour) are not typing and are skipped.
+fn typeof_stream(out: &mut Out, thorough: bool, rng: &mut Rng) {
+    use crate::ast::{self, CtxK, Node};
+    fn one<Pk: ast::KeyOf, Ctx: miniscript::ScriptContext>(out: &mut Out, ctx: CtxK, n: &Node) {
+        let ans = match ast::to_ms::<Pk, Ctx>(n) {
+            Ok(ms) => ts(&ms.ty),
+            Err(e) if e.starts_with("typecheck") => "ERR".to_string(),
+            Err(_) => { out.count("typeof: non-typing rejection (skipped)"); return; }
+        };
+        out.count(if ans == "ERR" { "typeof: rejected" } else { "typeof: accepted" });
+        out.line(&format!("C typeof {} {}", ctx.name(), n.wire()), &ans);
+    }
+    for ctx in CtxK::ALL {
+        let atoms = ast::default_atoms(ctx, !thorough);
+        let pool: Vec<Node> = ast::enumerate(ctx, &atoms, 1, if thorough { 12 } else { 5 }, rng).into_iter().map(|t| t.node).collect();
+        let bx = |n: &Node| Box::new(n.clone());
+        let pick = |rng: &mut Rng| pool[rng.below(pool.len())].clone();
+        for a in &pool {
+            for w in [Node::Alt(bx(a)), Node::Swap(bx(a)), Node::Check(bx(a)), Node::DupIf(bx(a)), Node::Verify(bx(a)),
+                      Node::NonZero(bx(a)), Node::ZeroNotEqual(bx(a))] {
+                crate::with_ctx!(ctx, one(out, ctx, &w));
+            }
+        }
+        let n2 = if thorough { 40 } else { 12 };
+        for a in &pool {
+            for _ in 0..n2 {
+                let b = pick(rng);
+                for c in [Node::AndV(bx(a), bx(&b)), Node::AndB(bx(a), bx(&b)), Node::OrB(bx(a), bx(&b)),
+                          Node::OrD(bx(a), bx(&b)), Node::OrC(bx(a), bx(&b)), Node::OrI(bx(a), bx(&b))] {
+                    crate::with_ctx!(ctx, one(out, ctx, &c));
+                }
+                let c = pick(rng);
+                crate::with_ctx!(ctx, one(out, ctx, &Node::AndOr(bx(a), bx(&b), bx(&c))));
+                let kids = vec![a.clone(), b.clone(), c.clone(), pick(rng)];
+                let n = 1 + rng.below(4);
+                let k = 1 + rng.below(n);
+                crate::with_ctx!(ctx, one(out, ctx, &Node::Thresh(k, kids[..n].to_vec())));
+            }
+        }
+    }
 }
